@@ -75,3 +75,183 @@ def find(rec):
         if rx.search(rec["name"]):
             return fn
     return None
+
+
+# ------------------------------------------------------------------------------------------- Gateway.logic
+def _gateways(version):
+    """real gateways in a few characteristic states (each a history of accepted lines / controller calls)"""
+    from unittest import mock
+
+    import mysensors
+
+    def mk():
+        gw = mysensors.Gateway(event_callback=None, protocol_version=version)
+        gw.tasks = mysensors.task.SyncTasks(gw.const, False, "x.json", gw.sensors, mock.MagicMock())
+        return gw
+
+    hist = {
+        "empty": [],
+        "node": ["1;255;0;0;17;2.0"],
+        "node+child": ["1;255;0;0;17;2.0", "1;0;0;0;3;lamp", "1;0;1;0;2;1"],
+        "sleeping": ["1;255;0;0;17;2.0", "1;0;0;0;3;lamp", "1;0;1;0;2;1", "1;255;3;0;22;10", "1;255;3;0;32;500"],
+        "sleeping+late-child": ["1;255;0;0;17;2.0", "1;0;0;0;3;lamp", "1;255;3;0;22;10", "1;255;3;0;32;500", "1;1;0;0;3;late"],
+        "old-node-sleeping": ["1;255;0;0;17;1.4", "1;0;0;0;14;heater", "1;0;1;0;22;1", "1;255;3;0;22;10", "1;255;3;0;32;500"],
+    }
+    out = []
+    for name, lines in hist.items():
+        gw = mk()
+        ok = True
+        for ln in lines:
+            try:
+                gw.logic(ln + "\n")
+            except Exception:  # the history itself trips the defect: still a usable state
+                pass
+        out.append((name, lines, gw))
+        if name in ("node+child", "sleeping"):
+            gw2 = mk()
+            for ln in lines:
+                try:
+                    gw2.logic(ln + "\n")
+                except Exception:
+                    pass
+            try:
+                gw2.tasks.ota.make_update(1, 1, 1, b"\x01" * 40)
+            except Exception:
+                pass
+            out.append((name + "+ota", lines + ["update_fw(1,1,1,<40 bytes>)"], gw2))
+    return out
+
+
+LINE_PAYLOADS = ["", "0", "1", "abc", "zz", "0100", "010001000000", "0100010000000000ffff0000", "2.0", "-1", "100", "nan", "ffffff", "1,2,3"]
+
+
+def replay_logic_raises(model, rec):
+    import logging
+
+    logging.disable(logging.CRITICAL)
+    m = re.search(r"version=([\d.]+)", rec["name"])
+    version = m.group(1) if m else "2.0"
+    cm = re.search(r"cmd=(-?\d+)", rec["name"])
+    cmds = [int(cm.group(1))] if cm and int(cm.group(1)) >= 0 else [0, 1, 2, 3, 4]
+    from mysensors.const import get_const
+
+    const = get_const(version)
+    for name, hist, gw in _gateways(version):
+        for cmd in cmds:
+            subs = [int(s) for s in const.VALID_MESSAGE_TYPES.get(cmd, [])]
+            for node in (1, 2, 255):
+                for child in (0, 1, 255):
+                    for sub in subs:
+                        for p in LINE_PAYLOADS:
+                            line = f"{node};{child};{cmd};0;{sub};{p}\n"
+                            try:
+                                gw.logic(line)
+                            except Exception as e:  # noqa: BLE001
+                                return True, f"history {hist} then line {line!r} (version {version}): {type(e).__name__}: {e}"
+    return False, "no escaping exception on the history/line corpus"
+
+
+def replay_next_id(model, rec):
+    import random
+
+    import mysensors
+
+    rnd = random.Random(1)
+    for _ in range(3000):
+        gw = mysensors.Gateway()
+        ids = set(rnd.sample(range(0, 256), rnd.randint(0, 6)))
+        if rnd.random() < 0.3:
+            ids |= {rnd.choice([253, 254, 255])}
+        for i in ids:
+            gw.sensors[i] = mysensors.Sensor(i)
+        r = gw._get_next_id()
+        if r is not None and not (1 <= r <= 254 and r not in ids):
+            return True, f"known nodes {sorted(ids)}: _get_next_id() = {r}"
+    return False, "random node sets agree"
+
+
+def replay_codec(model, rec):
+    from mysensors.message import Message
+
+    for p in ["", "a", "a b", "é", "1.5", "x" * 30]:
+        for f in [(0, 0, 0, 0, 0), (255, 255, 4, 1, 56), (-3, 999, 7, 2, -1)]:
+            m = Message(node_id=f[0], child_id=f[1], type=f[2], ack=f[3], sub_type=f[4], payload=p)
+            enc = m.encode()
+            want = ";".join(str(x) for x in f) + ";" + p + "\n"
+            if enc != want:
+                return True, f"Message{f + (p,)}.encode() = {enc!r}, canonical line is {want!r}"
+            d = Message(enc)
+            got = (d.node_id, d.child_id, d.type, d.ack, d.sub_type, d.payload)
+            if got != f + (p,):
+                return True, f"decode(encode({f + (p,)})) = {got}"
+            c = m.copy(ack=1)
+            if (c.node_id, c.child_id, c.type, c.ack, c.sub_type, c.payload) != (f[0], f[1], f[2], 1, f[4], p):
+                return True, f"copy(ack=1) of {f + (p,)} gave {c!r}"
+    return False, "codec corpus agrees"
+
+
+def replay_prepare_fw(model, rec):
+    import random
+
+    from mysensors.ota import compute_crc, prepare_fw
+
+    rnd = random.Random(2)
+    for ln in [1, 15, 16, 17, 127, 128, 129, 255, 256, 300, 1000]:
+        img = bytes(rnd.getrandbits(8) for _ in range(ln))
+        fw = prepare_fw(img)
+        pad = 128 - ln % 128
+        if fw["data"] != img + b"\xff" * pad or fw["blocks"] * 16 != len(fw["data"]) or fw["crc"] != compute_crc(fw["data"]):
+            return True, f"prepare_fw of a {ln}-byte image: data/blocks/crc do not match the padded image"
+    return False, "padding corpus agrees"
+
+
+def replay_mqtt(model, rec):
+    from unittest import mock
+
+    from mysensors.gateway_mqtt import MQTTGateway
+
+    prefixes = ["", "a", "a/b", "1", "1/1/1/1/1", "0/0", "x-1/2"]
+    for pre in prefixes:
+        gw = MQTTGateway(mock.MagicMock(), mock.MagicMock(), in_prefix=pre)
+        for line in ["1;2;1;0;3;55\n", "1;1;1;1;1;1\n", "255;255;3;0;3;\n", "0;0;0;0;0;a b\n"]:
+            topic, payload, qos = gw.parse_message_to_mqtt(line)
+            back = gw.parse_mqtt_to_message(pre + topic, payload, qos)
+            if back is None or back + "\n" != line:
+                return True, f"in_prefix {pre!r}: {line!r} published as {topic!r} comes back as {back!r}"
+        for bad in ["1/2/3/0/4", pre + "x/1/2/3/0/4", pre + "/1/2/3/0"]:
+            if bad.startswith(pre + "/") and len(bad[len(pre) + 1 :].split("/")) == 5 and "/" not in "".join(bad[len(pre) + 1 :].split("/")):
+                continue
+            if gw.parse_mqtt_to_message(bad, "p", 0) is not None:
+                return True, f"in_prefix {pre!r}: topic {bad!r} accepted"
+    return False, "topic corpus agrees"
+
+
+def replay_config(model, rec):
+    import mysensors.mysensors as M
+    from unittest import mock
+
+    try:
+        M.SerialGateway("/dev/ttyX", timeout=2.0, reconnect_timeout=3.0, persistence=False)
+        M.TCPGateway("127.0.0.1", port=5003, timeout=2.0, reconnect_timeout=3.0)
+        M.AsyncSerialGateway("/dev/ttyX", timeout=2.0)
+        M.AsyncTCPGateway("127.0.0.1", reconnect_timeout=3.0)
+        M.MQTTGateway(mock.MagicMock(), mock.MagicMock(), in_prefix="a", out_prefix="b", retain=False)
+    except TypeError as e:
+        return True, f"documented options rejected: {e}"
+    from mysensors.const import get_const
+
+    for v, want in (("2.0.0", "20"), ("2.0.5", "20"), ("2.3", "22"), ("2.2.0", "22"), ("1.5.1", "15"), ("1.3", "14")):
+        got = get_const(v).__name__[-2:]
+        if got != want:
+            return True, f"get_const({v!r}) selects const_{got}, expected const_{want}"
+    return False, "constructor / version corpus agrees"
+
+
+HOOKS += [
+    (re.compile(r"^Gateway\.logic\[.*\]\.raises"), replay_logic_raises),
+    (re.compile(r"_get_next_id|add_sensor"), replay_next_id),
+    (re.compile(r"^Message\.(encode|decode|copy)|^L1\.|^L2\."), replay_codec),
+    (re.compile(r"^prepare_fw"), replay_prepare_fw),
+    (re.compile(r"parse_mqtt_to_message|parse_message_to_mqtt|publish-then-receive"), replay_mqtt),
+    (re.compile(r"^constructors|^get_const"), replay_config),
+]
